@@ -46,6 +46,8 @@ func Slice(y tensor.Tensor, x tensor.Tensor, index []tensor.Range) (gctx *GradCo
 		return NewGradContext(false)
 	}
 
+	index = copiedIndex(index)
+
 	return &GradContext{
 		tracked: true,
 		backEdges: []*backwardEdge{
@@ -66,6 +68,8 @@ func Patch(y tensor.Tensor, x tensor.Tensor, p tensor.Tensor, index []tensor.Ran
 	if nonIsTracked(x, p) {
 		return NewGradContext(false)
 	}
+
+	index = copiedIndex(index)
 
 	return &GradContext{
 		tracked: true,
